@@ -835,8 +835,8 @@ package geom
 //@   ensures [sum] len(l) >= 1 ==> result == lenTo(l, len(l) - 1)
 //@   modifies nothing
 //@   loop 1 `for i := 0; i < len(l)-1; i++`
-//@     invariant [sum] 0 <= i && (len(l) >= 1 ? i <= len(l) - 1 : i == 0) && length == lenTo(l, i)
-//@     decreases len(l) - i
+//@     invariant [sum] 0 <= #1 && (len(l) >= 1 ? #1 <= len(l) - 1 : #1 == 0) && length == lenTo(l, #1)
+//@     decreases len(l) - #1
 
 //@ func (b *Bounds) Area
 //@   prop C03
@@ -860,8 +860,8 @@ package geom
 //@   ensures [empty] len(l) == 0 ==> result == posInf()
 //@   modifies nothing
 //@   loop 1 `for i := 0; i < len(l)-1; i++`
-//@     invariant [min] 0 <= i && (len(l) >= 1 ? i <= len(l) - 1 : i == 0) && d == distTo(p, l, i)
-//@     decreases len(l) - i
+//@     invariant [min] 0 <= #1 && (len(l) >= 1 ? #1 <= len(l) - 1 : #1 == 0) && d == distTo(p, l, #1)
+//@     decreases len(l) - #1
 
 //@ func (ml MultiLineString) Length
 //@   prop C03
@@ -923,8 +923,8 @@ package geom
 //@     invariant [sumX] allClosed(p) ==> xA == cxaTo(p, #1)
 //@     invariant [sumY] allClosed(p) ==> yA == cyaTo(p, #1)
 //@   loop 2 `for i := 0; i < len(r)-1; i++`
-//@     invariant [moments] 0 <= i && len(r) >= 1 && i <= len(r) - 1 && cx == mxTo(r, i) && cy == myTo(r, i)
-//@     decreases len(r) - i
+//@     invariant [moments] 0 <= #2 && len(r) >= 1 && #2 <= len(r) - 1 && cx == mxTo(r, #2) && cy == myTo(r, #2)
+//@     decreases len(r) - #2
 //@   assert [ring_area] `cx /= 6 * a` a == sa(p[#1]) && len(p[#1]) >= 1
 //@   assert [ring_same] `cx /= 6 * a` allClosed(p) ==> r == p[#1]
 //@   assert [ring_moment] `cx /= 6 * a` allClosed(p) ==> cx == mxTo(p[#1], len(p[#1]) - 1) && cy == myTo(p[#1], len(p[#1]) - 1)
@@ -956,8 +956,8 @@ package geom
 //@   loop 2 `for i, r := range p`
 //@     invariant [rings] 0 <= #2 && #2 <= len(p) && ringEnvs(p, b)
 //@   loop 3 `for i := 0; i < len(r)-1; i++`
-//@     invariant [moments] 0 <= i && (len(r) >= 1 ? i <= len(r) - 1 : i == 0) && cx == mxTo(r, i) && cy == myTo(r, i)
-//@     decreases len(r) - i
+//@     invariant [moments] 0 <= #3 && (len(r) >= 1 ? #3 <= len(r) - 1 : #3 == 0) && cx == mxTo(r, #3) && cy == myTo(r, #3)
+//@     decreases len(r) - #3
 //@   assert [ring_centroid] `xA += cx * a` cx == mxTo(r, len(r) - 1) / (6 * sa(r)) && cy == myTo(r, len(r) - 1) / (6 * sa(r))
 //@   assert [ring_weight] `xA += cx * a` a == abs(sa(r)) || a == -abs(sa(r)) || a == 0
 
